@@ -16,6 +16,10 @@
 (*   rebuild the line table.                                               *)
 (* If a position does not name a boundary of the stored text the document  *)
 (* is forgotten.  Property C13 is the invariant InSync.                    *)
+(* The server interprets positions with the table OF its current text      *)
+(* (SrvIdx is a function of `server`): the implementation's stored line    *)
+(* map must be the line map of its stored text after every change - a      *)
+(* refinement obligation the replay checks together with the text.         *)
 (*                                                                         *)
 (* Every transition prints one CASE line (pre-state, the changes as the    *)
 (* client encodes them, the server text expected after every change); in   *)
